@@ -149,6 +149,13 @@ def run(chk):
                 cfgs.append(dict(order=order, att=att, wrong=[], fail={m: 'none' for m in order}, polls=['x', 'y'],
                                  writes=['y'], acc={m: acc for m in order}, exported=['x', 'y'],
                                  pinata={'p': ['y']}))
+    # a pinata attached to another pinata: both are scanned, whichever is declared first
+    for order in (['p', 'q', 'y', 'z'], ['q', 'p', 'y', 'z']):
+        for att in ({'p': ['q'], 'q': [], 'y': [], 'z': []}, {'p': ['q'], 'q': [], 'y': ['z'], 'z': ['q']}):
+            for acc in ('init', 'never'):
+                cfgs.append(dict(order=order, att=att, wrong=[], fail={m: 'none' for m in order}, polls=['y', 'z'],
+                                 writes=['z'], acc={m: acc for m in order}, exported=['y', 'z'],
+                                 pinata={'p': ['y'], 'q': ['z']}))
     # chains of modules polled through each other's `io` (three deep, the middle one polled itself), shared io
     for att, host in (({'a': ['b'], 'b': ['c'], 'c': []}, {'a': 'b', 'b': 'c', 'c': 'c'}),
                       ({'a': ['c'], 'b': ['c'], 'c': []}, {'a': 'c', 'b': 'c', 'c': 'c'}),
